@@ -14,6 +14,7 @@ import YorkieModel.Driver.LocksEngine
 import YorkieModel.Driver.YsonEngine
 import YorkieModel.Driver.CodecEngine
 import YorkieModel.Driver.PresenceEngine
+import YorkieModel.Driver.ProtoEngine
 open Yorkie.Driver
 
 def engines : List (String × Engine) := [
@@ -34,7 +35,8 @@ def engines : List (String × Engine) := [
   ("yson", YsonEngine.engine),
   ("codec", CodecEngine.engine),
   ("pbfuzz", CodecEngine.pbfuzzEngine),
-  ("presence", PresenceEngine.engine)
+  ("presence", PresenceEngine.engine),
+  ("proto", ProtoEngine.engine)
 ]
 
 partial def loop (e : Engine) (h : IO.FS.Stream) (out : IO.FS.Stream) (st : e.State) : IO Unit := do
